@@ -90,7 +90,7 @@ P("C02", [LOCKS, CLOCK])
 H("C02", "c02_store_insert", "store", STF, SB + "; entries without TTL", cover_tags=["insert"])
 H("C02", "c02_store_update", "store", STF, SB + "; entries without TTL", cover_tags=["update"])
 H("C02", "c02_store_remove", "store", STF, SB + "; entries without TTL", cover_tags=["remove"])
-H("C02", "c02_store_lookup", "store", STF, SB + "; entries without TTL; get, get_mut and an in-place write", cover_tags=["lookup"])
+H("C02", "c02_store_lookup", "store", STF, SB + "; entries without TTL; get, get_mut and an in-place write", cover_tags=["lookup"], cover_optional=["lookup of an expired entry"])
 P("C04", [LOCKS, CLOCK])
 TTLB = "; resident and new entries with or without TTL (creation instants within 4 s before an arbitrary now, TTLs <= 4 s + arbitrary nanoseconds)"
 H("C04", "c04_em_store_insert", "store", STF, SB + TTLB, timeout=1200, cover_tags=["insert"])
@@ -108,11 +108,74 @@ MREC = "Metrics::add/is_op/clear/track_eviction are replaced by a no-op (metrics
 PARK = "parked cache: real ShardedMap + ExpirationMap + LFUPolicy + RingStripe + Cache + CacheProcessor wired as finalize() does, no thread spawned; the harness calls the real handle_insert_event / handle_clear_event / handle_cleanup_event"
 PF = ["CacheProcessor::handle_insert_event", "CacheProcessor::handle_item", "CacheProcessor::handle_cleanup_event", "ShardedMap::try_insert", "ShardedMap::try_remove", "ShardedMap::try_cleanup", "LFUPolicy::update", "LFUPolicy::remove", "LFUPolicy::cost", "SampledLFU::*", "ExpirationMap::*"]
 PB = "arbitrary quiescent state with <= 2 residents (arbitrary keys, charges <= 2^40, TTLs <= 4 s or none) satisfying I-SP, I-P, I-EM; both ignore_internal_cost settings; arbitrary addressed key; one processor event"
-P("C06", [LOCKS, CLOCK, CHAN, ADDC, MREC, PARK])
-H("C06", "c06_proc_new", "cache::sync", PF, PB + ": a New item (arbitrary cost, TTL)", timeout=1800, cover_tags=["new"])
-H("C06", "c06_proc_update", "cache::sync", PF, PB + ": an Update item", timeout=1800, cover_tags=["update"])
-H("C06", "c06_proc_delete", "cache::sync", PF, PB + ": a Delete item", timeout=1800, cover_tags=["delete"])
-H("C06", "c06_proc_tick", "cache::sync", PF, PB + ": a cleanup tick at an arbitrary instant <= 8 s later", timeout=1800, cover_tags=["tick"])
+ARCD = "Arc::drop_slow is replaced by a leak (no property is about destructors; CBMC cannot see reference counts through the Arc allocation)"
+CACHE_ASS = [LOCKS, CLOCK, CHAN, ADDC, MREC, PARK, ARCD]
+def PH(pid, name, ev, what, tier="quick", **kw):
+    H(pid, name, "cache::sync", PF, PB + ": " + what, tier=tier, timeout=1800, cover_tags=[ev], **kw)
+P("C06", CACHE_ASS)
+PH("C06", "c06_proc_new", "new", "a New item (arbitrary cost, TTL); asserts I-SP and len")
+PH("C06", "c06_proc_update", "update", "an Update item; asserts I-SP and len")
+PH("C06", "c06_proc_delete", "delete", "a Delete item; asserts I-SP and len")
+PH("C06", "c06_proc_tick", "tick", "a cleanup tick at an arbitrary instant <= 8 s later; asserts I-SP and len")
+P("C08", CACHE_ASS)
+PH("C08", "c08_proc_new", "new", "a New item; asserts the callback accounting")
+PH("C08", "c08_proc_delete", "delete", "a Delete item; asserts the callback accounting")
+PH("C08", "c08_proc_tick", "tick", "a cleanup tick; asserts the callback accounting")
+P("C16", CACHE_ASS)
+PH("C16", "c16_proc_new", "new", "a New item; asserts charge = cost + overhead and reported costs")
+PH("C16", "c16_proc_update", "update", "an Update item; asserts the re-charge")
+PH("C16", "c16_proc_tick", "tick", "a cleanup tick; asserts the reported cost", tier="thorough")
+IDX["C01"]["assumptions"] += [CHAN, ADDC, MREC, PARK, ARCD]
+PH("C01", "c01_proc_new", "new", "a New item; asserts I-P")
+IDX["C05"]["assumptions"] += [CHAN, ADDC, MREC, PARK, ARCD]
+PH("C05", "c05_proc_tick", "tick", "a cleanup tick; asserts only-expired / all-overdue")
+
+CLI = ["Cache::try_update (client half of insert / insert_with_ttl / insert_if_present)", "ShardedMap::try_update", "ExpirationMap::try_update", "Coster::cost", "CacheCallback::on_exit", "Cache::get"]
+CB2 = "arbitrary quiescent state with <= 2 residents (with or without TTL) satisfying I-SP/I-P/I-EM; arbitrary key, cost, TTL <= 4 s, only_update flag, validator answer, Coster table"
+IDX["C02"]["assumptions"] += [CHAN, ADDC, MREC, PARK, ARCD]
+H("C02", "c02_client_insert", "cache::sync", CLI, CB2 + "; asserts immediate replacement / untouched store", timeout=1800, cover_tags=["client"])
+H("C08", "c08_client_insert", "cache::sync", CLI, CB2 + "; asserts the callback accounting", timeout=1800, cover_tags=["client"])
+H("C16", "c16_client_insert", "cache::sync", CLI, CB2 + "; asserts the queued cost (explicit or Coster)", timeout=1800, cover_tags=["client"])
+REM = ["Cache::try_remove", "Cache::get", "ShardedMap::try_remove", "CacheProcessor::handle_item(Delete)", "LFUPolicy::remove"]
+H("C08", "c08_client_remove", "cache::sync", REM, "arbitrary quiescent state with <= 2 residents (no TTL); remove of an arbitrary key, then the queued Delete is processed; callback accounting", timeout=1800, cover_tags=["client"])
+H("C06", "c06_client_remove", "cache::sync", REM, "arbitrary quiescent state with <= 2 residents (no TTL); remove of an arbitrary key, then the queued Delete is processed; I-SP", timeout=1800, cover_tags=["client"])
+
+# ---- C11
+P("C11", CACHE_ASS)
+H("C11", "c11_clear_seq", "cache::sync", ["Cache::clear", "LFUPolicy::clear", "ShardedMap::clear", "Metrics::clear (call site)", "CacheProcessor::handle_clear_event", "CacheCleaner::clean", "CacheCleaner::handle_item", "Cache::get", "Cache::len"],
+  "arbitrary quiescent state with <= 2 residents (no TTL) plus optionally one buffered New item; clear(), then the processor handles the clear signal", timeout=1800)
+H("C11", "c11_reuse_after_clear", "cache::sync", ["Cache::clear", "ShardedMap::clear", "Cache::try_update", "CacheProcessor::handle_item(New)", "CacheProcessor::handle_cleanup_event", "ShardedMap::try_cleanup", "ExpirationMap::*"],
+  "one resident with an arbitrary TTL <= 4 s; clear(); the key is re-inserted <= 2 s later with an arbitrary TTL or none; cleanup tick <= 8 s later", timeout=2400, mem_gb=20)
+# ---- C09 (cache level)
+IDX["C09"]["assumptions"] += [CHAN, ADDC, MREC, PARK, ARCD, "Cache::try_insert_in itself cannot be compiled by Kani (its select! builds a dyn SelectHandle whose vtable reaches thread-locals): insert_if_present is decided through its pre-select half Cache::try_update(.., only_update = true); the closed-flag test and the enqueue are by reading"]
+H("C09", "c09_if_present_api", "cache::sync", CLI, "arbitrary quiescent state with <= 2 residents; optionally a buffered, not yet applied New item for the same key; insert_if_present's client half with arbitrary key/cost and symbolic validator answer", timeout=1800)
+H("C09", "c09_client_insert", "cache::sync", CLI, CB2 + "; asserts vetoed / absent-key writes leave the store untouched", timeout=1800, cover_tags=["client"], alias_of="c02_client_insert")
+# ---- C18 (cache level)
+IDX["C18"]["assumptions"] += [CHAN, ADDC, MREC, PARK, ARCD]
+H("C18", "c18_cache_isolation", "cache::sync", ["Cache::get", "Cache::get_mut", "Cache::get_ttl", "Cache::try_update", "Cache::try_remove", "CacheProcessor::handle_item", "KeyBuilder::build_key"],
+  "a key builder that forces two keys onto one index hash with different non-zero conflict hashes; first key resident with arbitrary TTL; lookups / insert / remove of the second key, processed to quiescence", timeout=1800)
+# ---- C20
+P("C20", CACHE_ASS + [RNG, "std::thread::spawn is stubbed by panic!() in c20_finalize_rejects_zero (the three validation errors return before any thread is spawned; what finalize does after validation is outside)"])
+H("C20", "c20_finalize_rejects_zero", "cache::sync", ["CacheBuilder::finalize", "CacheBuilder::new_with_key_builder", "CacheBuilderCore::set_buffer_size", "CacheBuilderCore::set_hasher"], "arbitrary num_counters, max_cost, buffer size with at least one of them zero", timeout=900)
+H("C20", "c20_closed_is_inert", "cache::sync", ["Cache::get", "Cache::get_mut", "Cache::try_remove", "Cache::clear", "Cache::wait", "Cache::close"], "arbitrary quiescent state with <= 2 residents, closed flag set, arbitrary key", timeout=1800)
+H("C20", "c20_sketch_new_widths", "sketch", ["CountMinSketch::new", "CountMinSketch::increment", "CountMinSketch::estimate"], "num_counters symbolic in [1, 65536] (includes 1..70, powers of two or not)", timeout=900, alias_of="c13_sketch_new_widths")
+# ---- C10
+P("C10", CACHE_ASS + ["wg::WaitGroup::wait (Condvar parking) is replaced by: run the parked processor to quiescence, then assert the WaitGroup counter is zero - on one thread 'counter still positive' IS 'blocks forever'; WaitGroup::new/add/done/waitings run as real code", "NOT decided: races of wait() with close(), barrier semantics for other threads' calls, real wake-ups (DESIGN 8)"])
+WF = ["Cache::wait", "Cache::try_update", "Cache::try_remove", "Cache::clear", "CacheProcessor::handle_item(Wait)", "CacheCleaner::handle_item(Wait)", "wg::WaitGroup::new/add/done/waitings"]
+H("C10", "c10_wait_barrier", "cache::sync", WF, "arbitrary quiescent state with <= 2 residents and room for one more entry; optionally one insert and one remove of arbitrary keys before wait()", timeout=2400, mem_gb=20)
+H("C10", "c10_wait_vs_clear", "cache::sync", WF, "as c10_wait_barrier, with a clear() landing after the Wait marker was queued so that the cleaner meets the marker", timeout=2400, mem_gb=20)
+H("C10", "c10_wait_full_buffer", "cache::sync", WF, "insert buffer of size 1 already full", timeout=1800)
+# ---- C15
+P("C15", CACHE_ASS + ["the body of LFUPolicy::push is a crossbeam select! that Kani cannot compile; in c15_ring_batches / c15_get_records push is replaced by a recorder that notes every handed-over batch and answers kept / dropped / error as the solver chooses. The kept/dropped accounting inside push (KeepGets / DropGets) and the bounded(3) queue itself are outside the claim"])
+H("C15", "c15_ring_batches", "ring", ["RingStripe::new", "RingStripe::push"], "buffer_items symbolic in 0..3, 1..5 lookups of arbitrary keys, arbitrary answers of the policy", timeout=1200)
+H("C15", "c15_worker_applies", "policy::sync", ["PolicyProcessor::handle_items", "TinyLFU::increments", "TinyLFU::increment", "TinyLFU::estimate"], "cleared TinyLFU (4x4-byte sketch, 512-bit doorkeeper, 1..3 probes, samples > 4), batch of 1..3 arbitrary keys, or a receive error", timeout=1200)
+H("C15", "c15_get_records", "cache::sync", ["Cache::get", "Cache::get_mut", "RingStripe::push", "Metrics::add (call sites)"], "buffer_items = 1, <= 1 resident, arbitrary key, get or get_mut, then the same on a closed cache", timeout=1800)
+# ---- C17
+IDX["C17"]["assumptions"] += [CHAN, ADDC, MREC, PARK, ARCD, "life-expectancy tracking: track_admission never inserts into start_ts (its insert is guarded by len > num_to_keep), so no entry is ever tracked and the tracked-eviction clause holds vacuously (observation O1)", "sets_dropped / gets_kept / gets_dropped are updated inside crossbeam select! arms that Kani cannot compile: by reading only"]
+H("C17", "c17_metrics_stripe_index", "metrics", ["MetricsInner::add (index arithmetic)"], "every 64-bit hash", timeout=300)
+H("C17", "c17_metrics_inner", "metrics", ["MetricsInner::new", "MetricsInner::add", "MetricsInner::get", "MetricsInner::ratio", "MetricsInner::clear"], "the real 11 x 256 striped atomics; two arbitrary counter types, hashes and deltas < 2^62", timeout=2400, mem_gb=20)
+H("C17", "c17_cache_counts", "cache::sync", ["CacheProcessor::handle_item", "CacheProcessor::track_admission", "LFUPolicy::add (contract)", "LFUPolicy::update", "LFUPolicy::remove", "SampledLFU::update (metrics arm)"], "metrics on (recorder); <= 1 resident; one New / Update / Delete item for an arbitrary key", timeout=1800)
+H("C17", "c15_get_records", "cache::sync", ["Cache::get", "Cache::get_mut", "Metrics::add (call sites)"], "hits + misses == lookups on the open cache (see C15)", timeout=1800)
 
 P("PROBE", [])
 H("PROBE", "probe_fixture_only", "cache::sync", [], "probe", timeout=900, mem_gb=20)
